@@ -83,6 +83,30 @@ claim("C20", "E5",
       "DESIGN.md section 5.3 (Q1)")
 
 
+claim("C15", "E4+E3",
+      "static analysis: crash-containment who-may-call rules, call-graph SCC (recursion) census with re-checked guards (dominance, depth constants, acyclicity check ordering), unsafe census, error-discard census",
+      "Static decision of the crash-containment structure behind 'bad input ends in a reported error': every job runs under catch_unwind and unwinding "
+      "is not disabled; process exit/abort only in the binary and always non-zero on error; no font file written on failure; no todo!() reachable on "
+      "the main thread (the seven Fontra stubs are listed known findings); every recursive call cycle reachable from the entry points has a recorded "
+      "termination/stack argument, and for recursion whose depth follows the input (plist nesting, component graph, include graph) the guard that "
+      "bounds it is re-checked structurally on every run (this census found the component-cycle and plist-nesting stack overflows, both repaired); "
+      "unsafe blocks are the audited six; no tracked error is dropped. It quantifies over all inputs because it is a rule over code shape. It does "
+      "NOT decide parser-loop progress, time or memory bounds.",
+      "Trusted: rustc MIR, call graph with class-hierarchy expansion for workspace traits (std-trait callbacks not expanded in the census), "
+      "tables/e4_recursion.json (class + reason per cycle, confirmed by reading), std::panic::catch_unwind semantics. A stack overflow is not a "
+      "panic, which is why containment alone is not enough and the recursion census exists.",
+      "DESIGN.md sections 5.1, 5.2")
+
+claim("C13", "E4+E5",
+      "static analysis: guard dominance / data-flow of the include-validation result, field-write ownership and must-call pairing over MIR",
+      "Static decision of two clauses of C13 ONLY: (X6) cyclic or too-deep includes are rejected before the recursive tree assembly and the rejected "
+      "edges are honoured by it; (L1) a necessary condition of losslessness - a single owner of the source cursor, the lexer pulled only by "
+      "Parser::advance, every advance paired with AstSink::token. Termination of the grammar loops, panic-freedom and diagnostic ranges over arbitrary "
+      "text quantify over runtime token streams and are NOT decided; this check must not be read as evidence for them.",
+      "Trusted: rustc MIR; the FEA front-end recursion classes in tables/e4_recursion.json. Narrow claim by design (DESIGN.md section 0).",
+      "DESIGN.md sections 5.2 (X6), 5.3 (L1)")
+
+
 def main():
     commits = []
     try:
@@ -107,6 +131,7 @@ def main():
             {"name": "driver", "path": "driver/", "serves_properties": sorted(CLAIMS), "kind_free_text": "rustc_private fact extractor: MIR-lite, ADTs, impls, statics, format specs per crate (no verdicts)"},
             {"name": "E1", "path": "rules/e1.py", "serves_properties": ["C02", "C01"], "kind_free_text": "job effects + forced happens-before (static analysis over MIR facts)"},
             {"name": "E3", "path": "rules/e3.py", "serves_properties": ["C05", "C15"], "kind_free_text": "error discipline: type-resolved discard census"},
+            {"name": "E4", "path": "rules/e4.py", "serves_properties": ["C15", "C13"], "kind_free_text": "crash containment, recursion census with guard re-checks, include guard, unsafe census"},
             {"name": "E5", "path": "rules/e5.py", "serves_properties": ["C05", "C13", "C14", "C20"], "kind_free_text": "sibling agreement and layering rules (table assembly, file names, pipeline dominator, cursor ownership)"},
         ],
         "checks": [CLAIMS[k] for k in sorted(CLAIMS)],
